@@ -4,6 +4,7 @@
    harness, not proved. *)
 From Coq Require Import List NArith Bool Permutation.
 From Regal Require Import Base.StrLit Model.Lsp Proofs.Lsp Model.LspCache Gen.LspShape Proofs.LspCache.
+From Regal Require Model.LspLintShape Proofs.LspLintShape.
 Import ListNotations.
 Open Scope N_scope.
 
@@ -169,3 +170,44 @@ Theorem cache_shape_match :
   samples_ok (tl cache_funcs_modelled) sample_ops = true.
 Proof. exact cache_shape_match_lemma. Qed.
 Print Assumptions cache_shape_match.
+
+(* ---- regenerated obligations for what only a real interleaving would show (go/ast extract, Gen/LspShape.v) ---- *)
+
+(* Cache writes of internal/lsp/lint.go after the call of the linter (the slow step, during which a delete / rename
+   can be handled): they are exactly the modelled ones; each is a whole-map operation, or dominated by the test that
+   its URI is still a file of the cache (the loop over cache.GetAllFiles() read after the lint), or one of the four
+   listed unprotected writes (Model.LspLintShape.lint_writes_unprotected: the aggregates / ignore directives of the
+   file job = the OPEN delete-race finding; the per-file writes of the workspace run, never published).  In particular
+   the diagnostics that the file-lint job stores for its file are protected: "no diagnostic of a deleted or
+   renamed-away file survives" does not depend on the delete arriving outside the lint. *)
+Theorem lint_writes_after_lint_check_presence :
+  lint_found = true /\
+  lint_cache_writes = Model.LspLintShape.lint_cache_writes_modelled /\
+  forallb Model.LspLintShape.lint_write_ok lint_cache_writes = true /\
+  Model.LspLintShape.file_diagnostics_write_protected lint_cache_writes = true.
+Proof. exact Proofs.LspLintShape.lint_writes_match_lemma. Qed.
+Print Assumptions lint_writes_after_lint_check_presence.
+
+(* The rate limiter of the dispatcher, read from the source (condition of the branch of StartDiagnosticsWorker that
+   does not forward a job to workspaceLintRuns, constants resolved), as a function of the kind of job and the length
+   of the queue: for every queue length the channel admits, ONLY aggregate-report-only jobs are dropped, and only
+   when more than 5 runs are waiting (so a full lint / config-change lint is never dropped) ... *)
+Theorem limiter_only_drops_aggregate_reports :
+  forall (aggonly overwrite : bool) (qlen : nat),
+    (qlen <= 10)%nat -> Proofs.LspLintShape.source_limiter aggonly overwrite qlen = true -> aggonly = true /\ (qlen > 5)%nat.
+Proof. exact Proofs.LspLintShape.limiter_only_drops_aggonly_lemma. Qed.
+Print Assumptions limiter_only_drops_aggregate_reports.
+
+(* ... and the dispatcher of the model, about which [converges_job_atomic_partial] is proved, IS the dispatcher with
+   that limiter on every state whose run queue respects the capacity of the channel: the theorem's assumption about
+   the limiter is the code's. *)
+Theorem dispatch_is_source_limiter :
+  forall s : state, (length (qr s) <= 10)%nat ->
+    dispatch s = Model.LspLintShape.dispatch_with Proofs.LspLintShape.source_limiter s.
+Proof. exact Proofs.LspLintShape.dispatch_is_source_limiter_lemma. Qed.
+Print Assumptions dispatch_is_source_limiter.
+
+Example limiter_nonvacuous :
+  Proofs.LspLintShape.source_limiter true false 6 = true /\ Proofs.LspLintShape.source_limiter true false 5 = false /\
+  Proofs.LspLintShape.source_limiter false true 10 = false /\ limiter_capacity = 10.
+Proof. vm_compute. repeat split. Qed.
